@@ -377,6 +377,107 @@ PREPOST = Contract(qual=_QP + "plot_pre_and_post_rejection", params=["srecords",
 PREPOST.ghost_state = ("__panels",)
 TASKS.append(FunctionTask(PREPOST, module_env=_PP_ENV, clauses=["temporary mask changes are undone on every exit"]))
 
+# ---------------------------------------------------------------------------------------------------------------------
+# the two helpers that draw per-window artists: one line per selected window carrying that window's curve (accepted: the window mask; rejected: its
+# complement), and one marker artist holding the peaks selected by the peak mask (or its complement).  Traditional object; Axes as a recorder.
+from pyvc import objects as _o20
+from pyvc.objects import new_symlist
+import contracts.acc_traditional as _AT
+KI_, MI_ = _AT.K, _AT.M
+
+
+def _ind_inputs(valid):
+    def mk(ex, st):
+        fields = _AT._self_fields(ex, st)
+        fields["frequency"] = ex.alloc_arr(st, (MI_,), FRQP, "real", "param:hvsr.frequency", tag="frequency")
+        st.env["hvsr"] = sym_obj(ex, st, "HvsrTraditional", fields, owner="param:hvsr")
+        st.env["ax"] = sym_obj(ex, st, "Axes", {}, owner="param:ax")
+        st.env["valid"] = z3.BoolVal(valid)
+        st.env["plot_kwargs"] = NONE
+        st.env["__lines"] = new_symlist(ex, st, None, elem_sort=z3.ArraySort(I, R), owner="fresh", name="lines")
+        st.env["__drawn"] = Tup(())
+        st.env["K"], st.env["M"] = KI_, MI_
+        return [KI_ >= 0, MI_ >= 1]
+    return mk
+
+
+def _m_plot_line(ex, st, args, kw, node):
+    """ax.plot(x, y, ...): x must be the object's frequency vector; y is recorded"""
+    x, y = args[1], args[2]
+    dx = ex.arr(st, x)
+    ex.add_obl(f"call-pre[ax.plot:x-is-the-frequency-vector@{node.lineno}]", "call-pre", st, z3.And(dx.data == FRQP, dx.shape[0] == MI_), node.lineno,
+               "every curve is drawn against the object's frequency vector")
+    _o20.symlist_append(ex, st, st.env["__lines"], y, node)
+    return NONE
+
+
+def _line(ex, st, a, k, n_):
+    return z3.Select(z3.Select(st.heap[st.env["__lines"].sid].arr, lit(a[0])), lit(a[1]))
+
+
+_IND_GHOST = {"LINE": FuncV(_line, "LINE"), "n_lines": FuncV(lambda ex, st, a, k, n_: st.heap[st.env["__lines"].sid].length, "n_lines"),
+              "IDX": FuncV(lambda ex, st, a, k, n_: z3.Select(st.env["__selidx"][0], lit(a[0])), "IDX"), "NSEL": FuncV(lambda ex, st, a, k, n_: st.env["__selidx"][1], "NSEL"),
+              "count": _AT.GHOST["count"], "K": KI_, "M": MI_}
+for _valid in (True, False):
+    _sel = "hvsr.valid_window_boolean_mask[r]" if _valid else "not hvsr.valid_window_boolean_mask[r]"
+    _c = Contract(qual=_QP + "_plot_individual_hvsr_curves", params=["ax", "hvsr", "valid", "plot_kwargs"], ghost=_IND_GHOST, make_inputs=_ind_inputs(_valid),
+                  ensures=["n_lines() == NSEL()", "forall(t, 0, NSEL(), forall(c, 0, M, LINE(t, c) == hvsr.amplitude[IDX(t), c]))",
+                           # the enumeration IDX is exactly the selected windows, in increasing order
+                           f"forall(t, 0, NSEL(), 0 <= IDX(t) and IDX(t) < K)", f"forall(r, 0, K, ({_sel}) == exists(t, 0, NSEL(), IDX(t) == r))",
+                           "forall(t, 0, NSEL(), forall(u, t + 1, NSEL(), IDX(t) < IDX(u)))"],
+                  loops={1: ["n_lines() == _k1", "forall(t, 0, _k1, forall(c, 0, M, LINE(t, c) == hvsr.amplitude[IDX(t), c]))"]},
+                  modifies=["param:ax"], notes=("one line per accepted window" if _valid else "one line per rejected window") + ", each carrying that window's curve; nothing else")
+    _c.ghost_state = ("__lines",)
+    _c.obj_havoc = {"plot_kwargs": lambda ex, st, v: v}
+    TASKS.append(FunctionTask(_c, module_env=_P_ENV, registry={"Axes.plot": FuncV(_m_plot_line, "plot")}, label=f"{_QP}_plot_individual_hvsr_curves[valid={_valid}]",
+                              clauses=["one accepted-style line per accepted window and one rejected-style line per rejected window, carrying that window's curve"]))
+
+
+def _pk_inputs(valid):
+    def mk(ex, st):
+        _ind_inputs(valid)(ex, st)
+        return [KI_ >= 0, MI_ >= 1]
+    return mk
+
+
+def _m_plot_sel(ex, st, args, kw, node):
+    st.env["__drawn"] = Tup(tuple(st.env["__drawn"]) + ((args[1], args[2]),))
+    return NONE
+
+
+def _drew_peaks(valid):
+    def f(ex, st, a, k, n_):
+        calls = st.env["__drawn"]
+        h = st.heap[st.env["hvsr"].oid].fields
+        vp = ex.arr(st, h["valid_peak_boolean_mask"])
+        i = z3.Int("i!pk")
+        if len(calls) == 0:
+            return z3.BoolVal(False)
+        if len(calls) != 1 or not all(isinstance(x, MaskedV) for x in calls[0]):
+            return z3.BoolVal(False)
+        x, y = calls[0]
+        dx, dy, mx, my = ex.arr(st, x.arr), ex.arr(st, y.arr), ex.arr(st, x.mask), ex.arr(st, y.mask)
+        want = (lambda j: z3.Select(vp.data, j)) if valid else (lambda j: z3.Not(z3.Select(vp.data, j)))
+        return z3.And(dx.data == ex.arr(st, h["_main_peak_frq"]).data, dy.data == ex.arr(st, h["_main_peak_amp"]).data, mx.shape[0] == KI_, my.shape[0] == KI_,
+                      z3.ForAll([i], z3.Implies(z3.And(i >= 0, i < KI_), z3.And(z3.Select(mx.data, i) == want(i), z3.Select(my.data, i) == want(i)))))
+    return FuncV(f, "drew_peaks")
+
+
+for _valid in (True, False):
+    _cnt = "count(hvsr.valid_peak_boolean_mask)" if _valid else "(K - count(hvsr.valid_peak_boolean_mask))"
+    def _nsel(ex, st, a, k, n_, _v=_valid):
+        vp = st.heap[st.env["hvsr"].oid].fields["valid_peak_boolean_mask"]
+        m = vp if _v else ex.map1(st, vp, lambda x: z3.Not(x), elem="bool")
+        return npm.mask_count(ex.arr(st, m))
+    _c = Contract(qual=_QP + "_plot_peak_individual_hvsr_curve", params=["ax", "hvsr", "valid", "plot_kwargs"],
+                  ghost=dict(_IND_GHOST, drew_peaks=_drew_peaks(_valid), nothing=FuncV(lambda ex, st, a, k, n_: z3.BoolVal(len(st.env["__drawn"]) == 0), "nothing"),
+                             n_selected=FuncV(_nsel, "n_selected")),
+                  make_inputs=_pk_inputs(_valid), ensures=["implies(n_selected() > 0, drew_peaks())", "implies(n_selected() <= 0, nothing())"], modifies=["param:ax"],
+                  notes="one marker artist holding the peak frequencies and amplitudes selected by the peak mask (accepted) or its complement (rejected); nothing when the selection is empty")
+    _c.ghost_state = ("__drawn",)
+    TASKS.append(FunctionTask(_c, module_env=_P_ENV, registry={"Axes.plot": FuncV(_m_plot_sel, "plot")}, label=f"{_QP}_plot_peak_individual_hvsr_curve[valid={_valid}]",
+                              clauses=["peak markers are the object's accepted / rejected peaks"]))
+
 META = dict(
     level="other",
     explanation="frame obligations: the 14 plotting / summary functions write nothing reachable from the HVSR object, the recordings or their keyword-argument "
